@@ -74,7 +74,11 @@ func (g *genC13) Block(w *World, b int) Block {
 			n["staker_ratio"] = sr
 			n["dev_grants_ratio"] = rng.Range(0, room-sr)
 		}
-		steps = append(steps, Step{Kind: "param", S: map[string]string{"module": "mint"}, N: n})
+		ps := Step{Kind: "param", S: map[string]string{"module": "mint"}, N: n}
+		if rng.Chance(1, 2) {
+			ps.S["via"] = "gov"
+		}
+		steps = append(steps, ps)
 	}
 	if rng.Chance(1, 6) {
 		steps = append(steps, txStep(mkOp("bank_send", 1+rng.Intn(3)).withN("to", int64(1+rng.Intn(3))).withN("amt", rng.Range(1, 1_000_000))))
